@@ -28,7 +28,7 @@ RULES = {
     "a1": {("s_a1", "c_a1"): "pulse_on_hit"},
     "k1": {("s_k1", "c_k1"): "pulse_on_hit"},
 }
-OPS = ["enable", "disable", "flip", "release", "ball_search", "hits", "wait", "ball_will_end", "tilt", "service", "ball_started"]
+OPS = ["enable", "disable", "flip", "release", "ball_search", "hits", "wait", "ball_will_end", "tilt", "service", "ball_started", "button"]
 
 
 def setup(part):
@@ -134,6 +134,11 @@ def body(S, t, part):
                 op = "switch"
             else:
                 tgt = bits[1]
+        if op == "button":
+            # a cabinet button goes down or up (the virtual platform does not execute rules: only mpf's own reaction matters)
+            sw_name = ("s_f1", "s_f2")[S.choice("button%d" % i, 2)]
+            m.switch_controller.process_switch(sw_name, 1 if S.bool("button_down%d" % i) else 0, logical=True)
+            op = "switch"
         if op == "switch":
             pass
         elif op in ("enable", "disable", "flip", "release", "ball_search"):
@@ -201,7 +206,9 @@ def scenarios(tier):
         parts = [dict(ops=f, n=len(f) + 1, alphabet=alpha) for f in firsts]
         parts.append(dict(ops=["hits:a1", "enable:a1", "disable:a1", "wait"], n=4, alphabet=alpha))            # timeout re-enable vs. explicit disable
         parts.append(dict(ops=["sw:s_f3:1", "sw:s_f3_eos:1", "disable:f3", "sw:s_f3_eos:0"], n=4, alphabet=alpha))   # software EOS repulse after disable
+        parts.append(dict(ops=["sw:s_f1:1", "flip:f1"], n=3, alphabet=["ball_will_end", "disable", "service", "release"]))   # software flip with the button held, then the flipper goes away
+        parts.append(dict(ops=["sw:s_f2:1", "flip:f2"], n=3, alphabet=["ball_will_end", "disable", "service", "release"]))
     else:
-        parts = [dict(ops=[a, b], n=5, alphabet=alpha + ["tilt", "ball_started"]) for a in alpha for b in ("enable", "disable", "hits", "ball_will_end", "wait")]
+        parts = [dict(ops=[a, b], n=5, alphabet=alpha + ["tilt", "ball_started", "button"]) for a in alpha + ["button"] for b in ("enable", "disable", "hits", "ball_will_end", "wait")]
     pb = 80 if tier == "quick" else 400
     return [Scenario("requests", setup, body, parts, teardown=teardown, part_budget=pb, per_path_timeout=60)]
